@@ -75,14 +75,49 @@ func (r pipeResult) lines() map[int]bool {
 	return m
 }
 
+// pipeDep is an already analysed dependency: its source (re-checked into the importer's file set, which gives
+// the importer fresh type objects as export data would) and the facts it exported.
+type pipeDep struct {
+	path, file, src string
+	facts           []analysis.Fact
+}
+
+type pipeImporter map[string]*types.Package
+
+func (m pipeImporter) Import(path string) (*types.Package, error) { return m[path], nil }
+
 // pipeAnalyse runs the pipeline on one single-file package without imports.
-func pipeAnalyse(src string) (res pipeResult) {
+func pipeAnalyse(src string) pipeResult {
+	res, _ := pipeAnalysePkg("m/p", "p.go", src, nil)
+	return res
+}
+
+// pipeAnalysePkg runs the pipeline on one single-file package that may import the given dependencies (each
+// without imports of its own); it also returns the facts the package exported. Facts are handed over by
+// reference, not through the gob codec (C06 decides the codec).
+func pipeAnalysePkg(path, fileName, src string, deps []pipeDep) (res pipeResult, facts []analysis.Fact) {
 	// the assertion aggregator's analyzer object is only a map key here (its initialiser refers to analyzers that are not run)
 	assertion.Analyzer = &analysis.Analyzer{Name: "nilaway_assertion_analyzer"}
 
 	fset := token.NewFileSet()
 	res.fset = fset
-	file, err := parser.ParseFile(fset, "p.go", src, parser.ParseComments)
+	imp := pipeImporter{}
+	var upstream []analysis.PackageFact
+	for _, d := range deps {
+		df, err := parser.ParseFile(fset, d.file, d.src, parser.ParseComments)
+		if err != nil {
+			panic("dependency source does not parse: " + err.Error() + "\n" + d.src)
+		}
+		dp, err := (&types.Config{}).Check(d.path, fset, []*ast.File{df}, nil)
+		if err != nil {
+			panic("dependency source does not type-check: " + err.Error() + "\n" + d.src)
+		}
+		imp[d.path] = dp
+		for _, f := range d.facts {
+			upstream = append(upstream, analysis.PackageFact{Package: dp, Fact: f})
+		}
+	}
+	file, err := parser.ParseFile(fset, fileName, src, parser.ParseComments)
 	if err != nil {
 		panic("generated source does not parse: " + err.Error() + "\n" + src)
 	}
@@ -91,19 +126,18 @@ func pipeAnalyse(src string) (res pipeResult) {
 		Selections: map[*ast.SelectorExpr]*types.Selection{}, Scopes: map[ast.Node]*types.Scope{}, Implicits: map[ast.Node]types.Object{},
 		Instances: map[*ast.Ident]types.Instance{},
 	}
-	pkg, err := (&types.Config{}).Check("m/p", fset, []*ast.File{file}, info)
+	pkg, err := (&types.Config{Importer: imp}).Check(path, fset, []*ast.File{file}, info)
 	if err != nil {
 		panic("generated source does not type-check: " + err.Error() + "\n" + src)
 	}
 	conf := config.VerifConfig([]string{""}, nil, false)
-	var facts []analysis.Fact
 	results := map[*analysis.Analyzer]interface{}{config.Analyzer: conf}
 	pass := &analysis.Pass{
 		Fset: fset, Files: []*ast.File{file}, Pkg: pkg, TypesInfo: info, TypesSizes: types.SizesFor("gc", "amd64"), ResultOf: results,
 		Report:            func(analysis.Diagnostic) {},
 		ImportPackageFact: func(p *types.Package, f analysis.Fact) bool { return false },
 		ExportPackageFact: func(f analysis.Fact) { facts = append(facts, f) },
-		AllPackageFacts:   func() []analysis.PackageFact { return nil },
+		AllPackageFacts:   func() []analysis.PackageFact { return upstream },
 	}
 	epass := analysishelper.NewEnhancedPass(pass)
 
@@ -206,10 +240,10 @@ func pipeAnalyse(src string) (res pipeResult) {
 		res.funcErrs = append(res.funcErrs, "accumulation: "+err.Error())
 	}
 	res.diags, _ = out.([]analysis.Diagnostic)
-	return res
+	return res, facts
 }
 
-var ndHarnesses = map[string]func(){"Harness_Pipe_Smoke": Harness_Pipe_Smoke, "Harness_P08": Harness_P08, "Harness_P01": Harness_P01, "Harness_P07": Harness_P07, "Harness_P01L": Harness_P01L, "Harness_P08_Ok": Harness_P08_Ok}
+var ndHarnesses = map[string]func(){"Harness_Pipe_Smoke": Harness_Pipe_Smoke, "Harness_P08": Harness_P08, "Harness_P01": Harness_P01, "Harness_P07": Harness_P07, "Harness_P01L": Harness_P01L, "Harness_P08_Ok": Harness_P08_Ok, "Harness_P01X": Harness_P01X, "Harness_P01R": Harness_P01R}
 
 // Harness_Pipe_Smoke: two fixed programs, one with an unguarded dereference of a nil local, one guarded.
 func Harness_Pipe_Smoke() {
